@@ -1,7 +1,7 @@
 CONSTANTS
   Bug = "none"
   Tier = "quick"
-  Dev <- AllDev
+  Dev <- No_ignored_unmasks_overlap
 SPECIFICATION Spec
-INVARIANT WitHit
+INVARIANT Conf
 CHECK_DEADLOCK FALSE
